@@ -81,7 +81,7 @@ def wwm(env, nt=1, ns=2, freq=(0.05, 0.1, 0.2), dirs_deg=(0.0, 90.0, 180.0, 270.
     return ds, dict(e=e.copy(), f=f, sig=sig, drad=drad, ddeg=np.array(dirs_deg, dtype=float), u=None if u is None else u.copy(), v=None if v is None else v.copy())
 
 
-def era5(env, nt=1, nlat=1, nlon=2, nf=3, nd=4, missing=((0, 0, 0, 1, 2),)):
+def era5(env, nt=1, nlat=1, nlon=2, nf=3, nd=4, missing=((0, 0, 0, 1, 2),), native_names=False):
     """ERA5 layout after read_netcdf's renaming: efth(time, lat, lon, freq, dir) holding log10 of the
     density per radian (d2fd), NaN for missing values."""
     x = env.array("d2fd", (nt, nlat, nlon, nf, nd), lo=-8.0, hi=3.0)
@@ -91,6 +91,10 @@ def era5(env, nt=1, nlat=1, nlon=2, nf=3, nd=4, missing=((0, 0, 0, 1, 2),)):
         x[m] = float("nan")
     ds = xr.Dataset(coords={"time": TIMES[:nt], "lat": -30.0 - np.arange(nlat), "lon": 150.0 + np.arange(nlon), "freq": np.arange(nf), "dir": np.arange(nd)})
     ds["efth"] = (("time", "lat", "lon", "freq", "dir"), x)
+    if native_names:
+        # as the file holds it: d2fd(time, frequency, direction, latitude, longitude) with index coordinates 1..n
+        ds = ds.rename({"efth": "d2fd", "freq": "frequency", "dir": "direction", "lat": "latitude", "lon": "longitude"})
+        ds = ds.assign_coords(frequency=np.arange(1, nf + 1), direction=np.arange(1, nd + 1))
     return ds, dict(x=x.copy(), missing=miss)
 
 
